@@ -62,6 +62,9 @@ ASSUMPTIONS = [
     "a .pyi-only module is 'stub-only' (accepted) unless CPython imports a source module at that very dotted name",
     "member order inside a module is not part of 'the resulting tree' (dictionary order follows load order); the order of the "
     "directory list of a namespace package is",
+    "pkg-style declarations are spelled at column 0, inside try/except (the guarded pkg_resources/pkgutil idiom), inside `if True:`, after a "
+    "docstring/comment, with either quote; directory symlinks point to a sibling directory of the same package (no loops) and are judged like "
+    "any directory (CPython's finders and pkgutil follow them)",
     "search-path directory names are character prefixes of one another (sp, sp1, sp10, sp1x, sp10y) in drawn order",
     "history clause: the loader's modules/lines collections are replaced before each request (loading one name twice into one collection "
     "is not judged); an inserted/appended search path is not scanned for .pth files by either side",
@@ -432,7 +435,17 @@ def _known_pyi_only(case, fail) -> bool:
     return False
 
 
-KNOWN = {PYI_ONLY: _known_pyi_only}
+PKGUTIL_FROM = "pkgutil-from-import-not-recognised"
+
+
+def _known_pkgutil_from(case, fail) -> bool:
+    """`from pkgutil import extend_path; __path__ = extend_path(__path__, __name__)` (the spelling of the pkgutil
+    documentation) is not recognised by the finder's regular expressions: the package is taken as a regular package of
+    the first search path. Attributed only when a top-level __init__.py of the layout uses that spelling."""
+    return bool(fs.kf_tops(case["layout"])) and fail.clause in ("loaded-is-importable", "first-match-wins", "walker-found-is-loaded", "classified")
+
+
+KNOWN = {PYI_ONLY: _known_pyi_only, PKGUTIL_FROM: _known_pkgutil_from}
 
 
 def strategy(ctx):
@@ -441,6 +454,8 @@ def strategy(ctx):
     def steer(case):
         if PYI_ONLY in ctx.known:
             case["layout"], case["steered"] = fs.steer_pyi_only(case["layout"])
+        if PKGUTIL_FROM in ctx.known:
+            case["layout"], case["steered_kf"] = fs.steer_kf(case["layout"])
         return case
 
     return st.fixed_dictionaries(
@@ -459,6 +474,8 @@ def run_shard(ctx) -> None:
     def describe(case):
         if case.get("steered"):
             ctx.excluded(PYI_ONLY, case["steered"])
+        if case.get("steered_kf"):
+            ctx.excluded(PKGUTIL_FROM, case["steered_kf"])
         return _describe(case)
 
     ctx.run_hypothesis(strategy(ctx), check_case, max_examples=ctx.scale(600, 25000), describe=describe)
